@@ -284,6 +284,27 @@ def solve_orders(cls, par_index):
             if r["exc"] is None and r["status"] == "optimal" and r["value"] is not None:
                 vals.setdefault(n, {})[pattern] = r["value"]
     probs = []
+    # the same samples held in another order (rotation, reversal) must give the same value as well
+    from PEPit.function import Function
+    for pattern in ("sf", "sl"):
+        for n in (1, 2):
+            spec = dict(cls=cls, par=par_index, pattern=pattern, metric=models.CLASSES[cls]["metrics"][0], init="dist", n=n)
+            base = vals.get(n, {}).get(pattern)
+            if base is None:
+                continue
+            for perm in ("rotate", "reverse"):
+                ctx = models.build(spec)
+                for f_ in Function.list_of_functions:
+                    lp = f_.list_of_points
+                    if len(lp) > 1:
+                        f_.list_of_points = (lp[1:] + lp[:1]) if perm == "rotate" else lp[::-1]
+                r = solving.solve(ctx.pep)
+                if r["exc"] is not None and type(r["exc"]).__name__ != "SolverError":
+                    probs.append(("order-dependent-raises:%s" % cls, "n=%d %s: solving with the samples held in %sd order raised %s"
+                                  % (n, pattern, perm, type(r["exc"]).__name__)))
+                elif r["exc"] is None and r["status"] == "optimal" and (r["value"] is None or abs(r["value"] - base) > 2e-5 * max(1, abs(base))):
+                    probs.append(("order-dependent-value:%s" % cls, "n=%d %s: value %.8g with the samples in declaration order, %r with the same "
+                                  "samples held in %sd order" % (n, pattern, base, r["value"], perm)))
     for n, d in vals.items():
         base = d.get("sf")
         for pat, v in d.items():
